@@ -401,6 +401,23 @@ type DBTarget struct {
 type Retained struct {
 	infos []*api.SecretInfo
 	snaps []model.InfoM
+	// whole list results: the slice as it was handed out (same backing array) and what it showed then
+	lists     [][]*api.SecretInfo
+	listSnaps [][]model.InfoM
+}
+
+func (r *Retained) addList(ins []*api.SecretInfo) {
+	if r == nil {
+		return
+	}
+	var snap []model.InfoM
+	for _, in := range ins {
+		if in != nil {
+			snap = append(snap, infoOf(in))
+		}
+	}
+	r.lists = append(r.lists, ins)
+	r.listSnaps = append(r.listSnaps, snap)
 }
 
 func (r *Retained) add(in *api.SecretInfo) {
@@ -419,6 +436,21 @@ func (r *Retained) Unchanged() string {
 	for i, in := range r.infos {
 		if now := infoOf(in); !infoEq(now, r.snaps[i]) {
 			return fmt.Sprintf("a result returned earlier (%+v) now reads %+v", r.snaps[i], now)
+		}
+	}
+	for i, ins := range r.lists {
+		var now []model.InfoM
+		for _, in := range ins {
+			if in != nil {
+				now = append(now, infoOf(in))
+			}
+		}
+		same := len(now) == len(r.listSnaps[i])
+		for j := 0; same && j < len(now); j++ {
+			same = infoEq(now[j], r.listSnaps[i][j])
+		}
+		if !same {
+			return fmt.Sprintf("a list result returned earlier (%+v) now reads %+v", r.listSnaps[i], now)
 		}
 	}
 	return ""
@@ -467,6 +499,7 @@ func (t DBTarget) Do(c CallerM, o Op, ver uint32) Result {
 			r.List = append(r.List, infoOf(in))
 			t.Keep.add(in)
 		}
+		t.Keep.addList(ins)
 		return r
 	}
 	panic("unknown op kind " + o.Kind)
@@ -481,11 +514,16 @@ type HTTPTarget struct {
 	// LastStatus and LastBody record the most recent raw reply.
 	LastStatus int
 	LastBody   []byte
+	// Headers are added to every request (e.g. forwarding headers a client is free to send).
+	Headers map[string]string
 }
 
 func (t *HTTPTarget) client(c CallerM) setec.Client {
 	return setec.Client{Server: "http://setec.test", DoHTTP: func(r *http.Request) (*http.Response, error) {
 		r.RemoteAddr = t.AddrOf(c)
+		for k, v := range t.Headers {
+			r.Header.Set(k, v)
+		}
 		w := httptest.NewRecorder()
 		t.Mux.ServeHTTP(w, r)
 		t.LastStatus = w.Code
